@@ -179,7 +179,7 @@ class Gate:
         self._wait_for("end", i)
 
 
-def _loader(n, chunks=None, seed=3):
+def _loader(n, chunks=None, seed=3, dtype="float32"):
     import dask.array as da
     from acryo import Molecules, SubtomogramLoader
     from scipy.spatial.transform import Rotation
@@ -194,6 +194,9 @@ def _loader(n, chunks=None, seed=3):
     # state that is keyed too coarsely (|q|, rounded angles ...) makes the result depend on which task ran first
     base = [Rotation.from_euler("zyx", [10 * (i + 1), 5 + 3 * i, -7 * (i + 1)], degrees=True) for i in range((n + 1) // 2)]
     rot = Rotation.concatenate([r if j == 0 else r.inv() for r in base for j in (0, 1)][:n])
+    if dtype != "float32":
+        # other voxel types (int16 is the usual MRC mode): the numpy and the dask form of the SAME volume give the same results
+        tomo = np.round(tomo * 100).astype(dtype) if dtype.startswith("int") else tomo.astype(dtype)
     img = tomo if chunks is None else da.from_array(tomo, chunks=chunks)
     return SubtomogramLoader(img, Molecules(pos, rot), order=1, output_shape=(7, 7, 7)), tomo
 
@@ -209,7 +212,29 @@ def _ops(loader, M, gate_fn=None):
         return float(np.sum(sub * sub))
 
     stat.__name__ = "stat"
+
+    # several functions in one apply(): every function is given the sub-volume itself, whatever another function does to ITS
+    # argument (a user function may normalise the array it receives in place)
+    def norm_inplace(sub):
+        sub[...] = sub - sub.min()          # in place, whatever the voxel type
+        sub[0, 0, 0] = 0
+        return float(sub[3, 3, 3])
+
+    def plain_sum(sub):
+        return float(np.sum(sub))
+
+    def plain_max(sub):
+        return float(np.max(sub))
+
+    def apply3():
+        df = loader.apply([plain_sum, norm_inplace, plain_max])
+        alone = [loader.apply(f)[f.__name__].to_numpy() for f in (plain_sum, norm_inplace, plain_max)]
+        got = [df[f.__name__].to_numpy() for f in (plain_sum, norm_inplace, plain_max)]
+        # the values each function gives when it is the only one, then those of the joint call
+        return np.concatenate(alone + got)
+
     out = [
+        ("apply3", apply3),
         ("asnumpy", lambda: loader.asnumpy()),
         ("average", lambda: loader.average()),
         ("apply", lambda: loader.apply(stat)["stat"].to_numpy()),
@@ -284,13 +309,18 @@ def replay_real(case) -> dict:
 
     M = dict(ZNCC=ZNCCAlignment, NCC=NCCAlignment, PCC=PCCAlignment)[case["model"]]
     n = case["n"]
-    loader0, tomo = _loader(n)
+    dt = case.get("dtype", "float32")
+    loader0, tomo = _loader(n, dtype=dt)
     with dask.config.set(scheduler="synchronous"):
         ref = {k: np.asarray(f()) for k, f in _ops(loader0, M)}
         # results are a function of each task's own inputs: the batch must equal one-molecule-at-a-time runs
-        ref.update(_one_at_a_time(_loader(n)[0], M))
+        ref.update(_one_at_a_time(_loader(n, dtype=dt)[0], M))
     fails = []
-    desc = dict(part=case["part"], model=case["model"], n=n, scheduler=case.get("scheduler"), workers=case.get("workers"), chunks=case.get("chunks"))
+    desc = dict(part=case["part"], model=case["model"], n=n, scheduler=case.get("scheduler"), workers=case.get("workers"), chunks=case.get("chunks"),
+                dtype=case.get("dtype", "float32"))
+    half = len(ref["apply3"]) // 2
+    if not np.array_equal(ref["apply3"][:half], ref["apply3"][half:]):
+        fails.append(dict(desc, clause="ApplyGivesEachFunctionItsOwnSubvolume", scheduler_of="synchronous"))
     if case["part"] == "scheduler":
         old = sys.getswitchinterval()
         sys.setswitchinterval(1e-6)
@@ -312,7 +342,7 @@ def replay_real(case) -> dict:
         finally:
             sys.setswitchinterval(old)
     elif case["part"] == "chunks":
-        loader, _ = _loader(n, chunks=tuple(case["chunks"]))
+        loader, _ = _loader(n, chunks=tuple(case["chunks"]), dtype=dt)
         for k, f in _ops(loader, M):
             v = np.asarray(engine.api(f))
             if v.shape != ref[k].shape or not np.array_equal(v, ref[k]):
@@ -366,6 +396,9 @@ def run(rep: engine.Report, tier: str, seed: int):
             cases.append(dict(part="scheduler", model=model, n=5, scheduler=sch, workers=wk, repeat=2 if quick else 6))
         for ch in ((26, 26, 82), (13, 13, 20), (7, 26, 9), (26, 5, 41)):
             cases.append(dict(part="chunks", model=model, n=5, chunks=list(ch)))
+        for dt in ("int16", "float64"):
+            cases.append(dict(part="chunks", model=model, n=5, chunks=[13, 13, 20], dtype=dt))
+            cases.append(dict(part="chunks", model=model, n=5, chunks=[26, 26, 82], dtype=dt))
         cases.append(dict(part="shapes", model=model, n=2, limits=[1.0, 1.5, 0.4, (1.2, 2.0, 0.5)]))
     results = engine.parallel_replay("harness.props.c10", "replay", cases, sync_dask=False, procs=8)
     engine.collect(rep, cases, results, key=lambda c: {k: v for k, v in c.items() if k != "_i"})
